@@ -8,6 +8,7 @@ import (
 	"encoding/json"
 	"flag"
 	"fmt"
+	"math"
 	"os"
 	"sort"
 
@@ -76,6 +77,26 @@ func cmdScan(args []string) {
 					}
 				}
 				ly := calendar.NewLunarYear(y)
+				// raw term instants whose seconds round up across a minute / hour / day boundary (carry chain of the
+				// Julian-Day -> date-time conversion); computed from the raw Julian Days, not from the converted dates
+				for _, jd := range ly.GetJieQiJulianDays() {
+					x := jd + 0.5
+					f := (x - math.Floor(x)) * 24
+					hh := math.Floor(f)
+					f = (f - hh) * 60
+					mi := math.Floor(f)
+					f = (f - mi) * 60
+					if math.Round(f) > 59 {
+						switch {
+						case mi == 59 && hh == 23:
+							add("term-instant-rounds-up-to-next-day", y)
+						case mi == 59:
+							add("term-instant-rounds-up-to-next-hour", y)
+						default:
+							add("term-instant-rounds-up-to-next-minute", y)
+						}
+					}
+				}
 				if m := ly.GetLeapMonth(); m > 0 {
 					add(fmt.Sprintf("leap-month-%d", m), y)
 				}
